@@ -123,7 +123,13 @@ def judge_solution(spec, scale, pr, res, out, sig, check_closure=True):
                 judged = ref['u_judged'][:, i, j] & ((r <= sigma) | (r >= sigma + O.BAND))
                 core = (r <= sigma)
                 with np.errstate(all='ignore'):
-                    slope = np.where(core, 1.0, np.abs(np.exp(np.sqrt(np.maximum(np.maximum(g_in, g_out) - u + 0.5, 0.0)) - 1.0)) + 1.0)
+                    # |dF/dgamma| of the shipped relation F = exp(sqrt(t) - 1) - 1 - gamma, t = gamma - u + 1/2, is
+                    # |exp(sqrt(t) - 1) / (2 sqrt(t)) - 1|: it grows without bound as t -> 0 and its first term has a single minimum
+                    # (at t = 1), so over [gamma_in, gamma_out] it is largest at an end point; t <= 0 gives an infinite bound (not judged)
+                    def e_(t):
+                        t = np.maximum(t, 0.0)
+                        return np.where(t > 0, np.exp(np.sqrt(t) - 1.0) / (2.0 * np.sqrt(np.maximum(t, 1e-300))), np.inf)
+                    slope = np.where(core, 1.0, np.maximum(e_(g_in - u + 0.5), e_(g_out - u + 0.5)) + 1.0)
                 mag = np.abs(f_in) + 1.0 + np.abs(g_in)
             else:
                 f_in, judged, core = S.closure_value(name, flag, r, g_in, u, sigma)
